@@ -296,6 +296,11 @@ def build_form(name, o, var, gsz, vsz, modes, extra):
             f['ops'].append(('K_MEM', role, sz, -1, acc))
         if 'kz' in deco: f['flags'] = ['F_K', 'F_Z']
         elif 'k' in deco: f['flags'] = ['F_K']
+    # {er} / {sae}: embedded rounding / suppress-all-exceptions exist only for the register form of a 512-bit or scalar (LIG) record
+    alldeco = set(); [alldeco.update(d) for (_a, d, _c) in var]
+    if f['enc'] == 'E_EVEX' and not mem_seen and f['l'] in (2, 3):
+        if 'er' in alldeco: f['flags'] = list(f['flags']) + ['F_ER']
+        elif 'sae' in alldeco: f['flags'] = list(f['flags']) + ['F_SAE']
     if (name, o['enc'][2:]) in DB_ERRATA: f.update(DB_ERRATA[(name, o['enc'][2:])])
     if any(op[0] == 'K_VMEM' for op in f['ops']): f['has_modrm'] = 1   # db omits /r on the EVEX gather/scatter records
     if name in PREFER_EVEX: f['flags'] = list(f['flags']) + ['F_PREFER_EVEX']
